@@ -119,10 +119,14 @@ def names(tier, via, fmt):
     other = FORMATS[(FORMATS.index(fmt) + 1) % 4] if fmt else None
     if via == "suffix":
         out = ["a.%s" % fmt, "a.b.c.%s" % fmt, "dir.with.dots/a.nc.%s" % fmt]
+        # stems ending in a character of the suffix, and a doubled suffix:
+        # the inputs that distinguish "strip the suffix" from "strip its
+        # characters" (one input per short cut visible in the code)
+        out += ["s%s.%s" % (ch, fmt) for ch in sorted(set(fmt))]
+        out += ["x.%s.%s" % (fmt, fmt)]
         if tier == "thorough":
             out += ["with space.%s" % fmt, "ünï cöde.%s" % fmt,
-                    "x.%s.%s" % (fmt, fmt), "y.%s.%s" % (other, fmt),
-                    "-dash.%s" % fmt]
+                    "y.%s.%s" % (other, fmt), "-dash.%s" % fmt]
         return [(n, fmt) for n in out]
     if via == "fmt":
         out = [("a.%s" % fmt, fmt), ("plain", None), ("data.dat", None),
